@@ -123,10 +123,15 @@ func c12Scenario(c *Ctx, idx int, r *Rng) (mline, mimpl, mcase string) {
 	var steps []string
 	log := func(f string, a ...interface{}) { steps = append(steps, fmt.Sprintf(f, a...)) }
 	day := 1
+	skew := false // the next commit carries dates OLDER than every commit so far (clock skew, imported history, git am)
 	commit := func(msg string) {
 		env := []string{fmt.Sprintf("GIT_AUTHOR_DATE=2023-03-%02dT10:00:00+0100", day), fmt.Sprintf("GIT_COMMITTER_DATE=2023-04-%02dT11:30:00-0500", day),
 			"GIT_AUTHOR_NAME=" + Pick(r, []string{"Ann Author", "Bob Ü. Writer"}), "GIT_AUTHOR_EMAIL=a@example.invalid", "GIT_COMMITTER_NAME=Carl Committer"}
 		day++
+		if skew {
+			env[0], env[1] = fmt.Sprintf("GIT_AUTHOR_DATE=2019-01-%02dT10:00:00+0100", day), fmt.Sprintf("GIT_COMMITTER_DATE=2019-01-%02dT11:30:00-0500", day)
+			skew = false
+		}
 		w.gitEnv(env, "add", "-A")
 		w.gitEnv(env, "commit", "-qm", msg+"\n\nbody line of "+msg+"\n", "--allow-empty")
 	}
@@ -195,6 +200,10 @@ func c12Scenario(c *Ctx, idx int, r *Rng) (mline, mimpl, mcase string) {
 			side := fmt.Sprintf("s%d", op)
 			w.git("checkout", "-q", "-b", side)
 			write(Pick(r, files))
+			if r.Chance(45) {
+				skew = true
+				log("side commit with dates older than its ancestors")
+			}
 			commit("side work")
 			w.git("checkout", "-q", cur)
 			write(Pick(r, files))
